@@ -16,6 +16,9 @@ import Operon.Gen.MetabolismConsts
     obs id none | nth k exc | state <name> exc | always exc   -> ok     (script of store id's on_state_change observer:
                                                          raise exception #exc at its k-th call / when called with
                                                          that state / at every call; calls are counted per script)
+    loud id utf8|ascii|closed|none                   -> ok     (silent=False on that console; console output is best effort and
+                                                         never part of an operation's outcome: nothing changes in the model)
+    label <hex code points>                          -> ok     (the `operation` text of the following consume calls: not modelled)
     fcheck cur cap debt                              -> the float classifier's verdict (self-check of the Float tie)
 
     <store> = atp gtp nadh debt consumed regenerated ops failed ntx state maxAtp maxGtp maxNadh
@@ -199,6 +202,17 @@ def stepLine (d : DSt) (toks : List String) : DSt × String :=
     | some i, some sc =>
       if i < sys.length then ({ d with scripts := d.scripts.set i (sc, 0) }, "ok") else (d, "no-such-store")
     | _, _ => (d, "bad-op")
+  | ["loud", i, kind] =>
+    match nat? i with
+    | some i =>
+      if !(["utf8", "ascii", "closed", "none"].contains kind) then (d, "bad-op")
+      else if i < sys.length then (d, "ok") else (d, "no-such-store")
+    | Option.none => (d, "bad-op")
+  | ["label", h] =>
+    let okTok (x : String) : Bool :=
+      !x.isEmpty && x.all (fun c => ('0' ≤ c && c ≤ '9') || ('a' ≤ c && c ≤ 'f')) &&
+        x.foldl (fun acc c => acc * 16 + hexVal c) 0 < 0x110000
+    if h = "-" || (h.splitOn ".").all okTok then (d, "ok") else (d, "bad-op")
   | ["fcheck", cur, cap, debt] =>
     let cap' : Int := natD cap
     let r : Option Quo := if cap' = 0 then none else some ⟨natD cur, cap'⟩
